@@ -4845,6 +4845,16 @@ fn resolve_addr_to_index(if_kind: IfKind, interfaces: &[Interface]) -> IfKind {
     if_kind
 }
 
+#[cfg(feature = "verif-hooks")]
+pub(crate) mod verif_export {
+    pub(crate) fn name_change(original: &str) -> String {
+        super::name_change(original)
+    }
+    pub(crate) fn hostname_change(original: &str) -> String {
+        super::hostname_change(original)
+    }
+}
+
 #[cfg(test)]
 mod tests {
     use super::{
